@@ -42,8 +42,12 @@ def gen_case(rng, maxn):
     insts = []
     for i in range(n):
         r = rng.random()
-        if r < 0.35:
+        if r < 0.2:
             t = anchor + rng.randint(-3, 3)
+        elif r < 0.4:
+            # a few units of every granularity around the boundary (e.g. the days of the ISO week
+            # that straddles new year, the hours around midnight)
+            t = anchor + rng.choice([60, 3600, 86400, 86400, 7 * 86400]) * rng.randint(-6, 6) + rng.choice([0, 0, -1, 1, rng.randint(0, 86399)])
         elif r < 0.7:
             u = rng.choice(UNITS)
             t = anchor - u * rng.randint(-2, 6) + rng.choice([0, 0, -1, 1, rng.randint(-u // 2, u // 2)])
@@ -66,13 +70,17 @@ def gen_case(rng, maxn):
         tree = rng.randint(1, 3) if rng.random() < 0.5 else 100 + i
         snaps.append([insts[i], off, ids[i], len(tags)] + tags + dl + [tree])
     hdr = [now, 0]
-    style = rng.randint(0, 5)
+    style = rng.randint(0, 7)
+    single = rng.randint(0, 8)          # styles 6/7: exactly one rule, so that its effect is not masked
     for p in range(9):
         r = rng.random()
-        if style == 0 and r < 0.8 or r < 0.4: hdr += [0]
+        if style >= 6:
+            hdr += [1, rng.choice([1, 2, 2, 3, 4, -1])] if (p == single and style == 6) else [0]
+        elif style == 0 and r < 0.8 or r < 0.4: hdr += [0]
         else: hdr += [1, rng.choice([0, 1, 1, 2, 2, 3, 5, -1, -1, rng.randint(-3, 12)])]
     for p in range(9):
-        if rng.random() < (0.75 if style != 1 else 0.3): hdr += [0]
+        if style == 6 or (style == 7 and p != single): hdr += [0]
+        elif style != 7 and rng.random() < (0.75 if style != 1 else 0.3): hdr += [0]
         else:
             sp = [0] * 7
             for _ in range(rng.choice([1, 1, 2])):
@@ -202,6 +210,8 @@ def run(ctx):
     # 5. correspondence
     ncases = 20000 if ctx.thorough() else 2500
     maxn = 60 if ctx.thorough() else 40
+    if not r["ok"]:
+        ncases *= 4        # an obligation is broken: widen the search for a concrete failing input
     cases = []
     corpus = os.path.join(ctx.pdir, "corpus.txt")
     if os.path.exists(corpus):
